@@ -339,6 +339,16 @@ let handle (case : sx) : string =
       (match rd_run b f (rd_new b f) ops' with
        | None -> id ^ "\t(hang)"
        | Some rs -> id ^ "\t" ^ paren ("ok" :: List.map atom_of_bytes rs))
+  | L [A id; A "cli"; com; src; files; json; fjson; jf; fjf; A mode; noout] ->
+      let m = (match mode with "unset" -> MUnset | "NEW" -> MNew | "NOTHING" -> MNothing | "OVERWRITE" -> MOverwrite | _ -> MBogus) in
+      let f = { f_com = bool_of com; f_src = bool_of src; f_files = bool_of files; f_json = bool_of json; f_fjson = bool_of fjson;
+                f_jsonfile = bool_of jf; f_fjsonfile = bool_of fjf; f_mode = m; f_nooutput = bool_of noout } in
+      (match decide f with
+       | Reject -> id ^ "\t(reject)"
+       | Go p -> id ^ "\t" ^ paren ["go";
+                   (match p.p_mode with RNew -> "NEW" | RNothing -> "NOTHING" | ROverwrite -> "OVERWRITE");
+                   (match p.p_stdout with OutNone -> "none" | OutHuman -> "human" | OutJson -> "json" | OutFormattedJson -> "fjson");
+                   bl p.p_jsonfile; bl p.p_fjsonfile])
   | L (A id :: A "pm" :: pat :: [L names]) ->
       id ^ "\t" ^ paren (List.map (fun nm -> bl (pm (by_of nm) (by_of pat))) names)
   | L (A id :: A "glob" :: tree :: [L pats]) ->
